@@ -1036,7 +1036,8 @@ class General(productmd.common.MetadataBase):
         parser.set(self._section, "platforms", ",".join(sorted(self._metadata.tree.platforms | set([self._metadata.tree.arch]))))
         parser.set(self._section, "timestamp", str(int(self._metadata.tree.build_timestamp)))
 
-        variants = list(self._metadata.variants)
+        # UIDs, not container keys: the two differ for variants like Server-optional
+        variants = [i.uid for i in self._metadata.variants.variants.values()]
         variants.sort()
         parser.set(self._section, "variants", ",".join(variants))
 
